@@ -31,7 +31,7 @@ def scenarios(rng, n):
             base.update(c)
             out.append(dict(kind="char", char=base, maxTrials=0, failRateOne=0, mode="paths", paths=2, maxLeaves=0, tag="refused", reps=0))
         else:  # word lists of distinctive words, with duplicates and twins (duplicate notice), all schemes, separators
-            words = ["".join(chr(c) for c in rng.sample(PUA + GREEK, rng.randint(3, 6))) for _ in range(rng.randint(2, 7))]
+            words = ["".join(chr(c) for c in rng.sample(PUA + GREEK, rng.randint(3, 6))) for _ in range(rng.choice([1, 1, 2, 3, 4, 5, 6, 7]))]
             if rng.random() < 0.6:
                 words += [rng.choice(words)] * rng.randint(1, 3)
             if rng.random() < 0.4:
@@ -42,7 +42,9 @@ def scenarios(rng, n):
                 words = ["".join(chr(c) for c in [rng.choice(PUA) for _ in range(300)])] + words[:1]
             sep = rng.choice([dict(sep="char", sepChar=[0x2192]), dict(sep="char", sepChar=[]), dict(sep="SFDigits1", sepChar=[]),
                               dict(sep="recipe", sepChar=[], sepRecipe=dict(len=2, allow=0, require=0, exclude=0, allowChars=rng.sample(CJK, 3), requireSets=[], excludeChars=[])),
-                              dict(sep="recipe", sepChar=[], sepRecipe=dict(len=1, allow=4, require=4, exclude=4, allowChars=[], requireSets=[], excludeChars=[]))])
+                              dict(sep="recipe", sepChar=[], sepRecipe=dict(len=1, allow=4, require=4, exclude=4, allowChars=[], requireSets=[], excludeChars=[])),
+                              # a caller-written separator that is random but claims no entropy
+                              dict(sep="custom0", sepChar=[], sepRecipe=dict(len=3, allow=0, require=0, exclude=0, allowChars=rng.sample(CJK + GREEK, 4), requireSets=[], excludeChars=[]))])
             wl = dict(words=[o(w) for w in words], nolist=0, len=rng.randint(1, 5), cap=rng.choice(wlfam.SCHEMES))
             wl.update(sep)
             out.append(dict(kind="wl", wl=wl, maxTrials=0, failRateOne=0, mode="paths", paths=4, maxLeaves=0, tag="distinctive-words", reps=0))
